@@ -166,6 +166,8 @@ UF = {
     "cos": _uf("cos"),
     "sin": _uf("sin"),
     "arctan2": _uf("arctan2", 2),
+    "cerf_re": _uf("cerf_re", 2),
+    "cerf_im": _uf("cerf_im", 2),
     "pow": _uf("pow", 2),
 }
 
@@ -551,10 +553,23 @@ def _fn(name, x):
     if type(x) is SymComplex:
         if name == "exp":
             return x.exp()
+        if name == "erf":
+            # complex error function: a pair of uninterpreted functions of (re, im)
+            re = x.re if type(x.re) is SymReal else sym_const(x.re)
+            im = x.im if type(x.im) is SymReal else sym_const(x.im)
+            ims = z3.simplify(im.t)
+            if z3.is_rational_value(ims) and ims.numerator_as_long() == 0:
+                return _fn("erf", re)
+            a, b = z3.simplify(re.t, som=True), z3.simplify(im.t, som=True)
+            return SymComplex(SymReal(UF["cerf_re"](a, b)), SymReal(UF["cerf_im"](a, b)))
         raise EngineError(f"{name} of a symbolic complex")
     if iscomplex(x):
         import cmath
 
+        if name == "erf":
+            from scipy import special as _sp
+
+            return complex(_sp.erf(complex(x)))
         return getattr(cmath, name)(complex(x))
     from scipy import special
 
